@@ -9,6 +9,7 @@ PID = "C11"
 LEVEL = "other"
 CRATES = ["rlib_gcd"]
 RELEASE = True
+NO_HIDDEN_STATE = ['rlib_gcd']   # driver rule STATE: these crates are plain data structures / functions
 ARMED = True
 ENGINES = ["E3", "E7", "E4c"]
 TECHNIQUE = "verification conditions over the generic MIR of egcd/crt discharged by polynomial normal forms with the division axiom b = a*(b/a) + b%a and the recursion's post-condition as hypothesis; structural sign rules for gcd/lcm; shape of the CRT reduction"
@@ -410,6 +411,20 @@ def check(col, prog, tier, profile, fixture=None):
             col.ok("Q2", lcm.loc(), key + "|order", "division before multiplication", nontrivial=False)
         else:
             col.violation("Q2", key, lcm.loc(), "lcm is not (|a| / gcd(a,b)) * |b| with the division first: sign or overflow behaviour changes (%s)" % tstr(ret))
+
+    # ---------------- Q5: the four routines are functions of their arguments (no state survives a call)
+    if not fixture:
+        col.rule("Q5", "gcd, lcm, egcd, crt and everything they reach hold no state: no static, thread-local, interior mutability, clock, IO or unsafe code", floor=4)
+        reach, _ext = util.reachable_calls(prog, [b_ for b_ in (gcd, lcm, egcd, crt) if b_ is not None])
+        for _k, b_ in sorted(reach.items()):
+            if b_.crate.name not in ("rlib_gcd", "rlib_num_traits"):
+                continue
+            bad = util.impure_constructs(b_)
+            key = "%s|effects" % fk(b_)
+            if bad:
+                col.violation("Q5", key, b_.loc(), "%s is reachable from gcd / lcm / egcd / crt and is not a function of its arguments (%s): a result can depend on the calls made before" % (b_.path, ", ".join(bad)))
+            else:
+                col.ok("Q5", b_.loc(), key, "no static / thread-local / clock / IO / unsafe", nontrivial=False)
 
     # ---------------- Q3
     I = Af(crt)
